@@ -16,8 +16,10 @@ EXTENDS PolicyManager
 
 CONSTANTS Repaired, MaxSteps
 
-VARIABLES c, K, mgr, up, steps, lastSync   \* lastSync: [pre, post] kernel states of the latest synchronisation, or Emp
-vars == <<c, K, mgr, up, steps, lastSync>>
+VARIABLES c, K, mgr, up, steps, lastSync,  \* lastSync: [pre, post] kernel states of the latest synchronisation, or Emp
+          hist                             \* the actions taken so far (a schedule the harness can replay on the real code); not in the VIEW
+vars == <<c, K, mgr, up, steps, lastSync, hist>>
+View == <<c, K, mgr, up, steps, lastSync>>
 
 Univ == [addrs |-> {"a1", "a2", "x1"}, blocks |-> ("B1" :> {"x1"}), plen |-> ("B1" :> 24), unstorable |-> {}]
 Nss == ("na" :> {"t=x"})
@@ -37,6 +39,8 @@ Foreign0 == [sets |-> ("KUBE-SET" :> [type |-> "ip", members |-> {"z"}]),
                         ("KUBE-FWD" :> <<R("", "", "all", <<SR("KUBE-SET", "src")>>, <<>>, FALSE, "ACCEPT")>>)]
 
 Init == /\ c = [nss |-> Nss, pods |-> Emp, pols |-> Emp] /\ K = Foreign0 /\ mgr = NoCluster /\ up = TRUE /\ steps = 0 /\ lastSync = Emp
+        /\ hist = <<>>
+H(x) == hist' = Append(hist, x)
 
 Sync(s, cl) == IF Repaired THEN FullSyncRepaired(s, Univ, cl) ELSE FullSync(s, Univ, cl)
 \* (the repaired manager uses the same three-phase synchronisation for its policy handlers)
@@ -45,27 +49,29 @@ DelPol(s, cl) == IF Repaired THEN FullSyncRepaired(s, Univ, cl) ELSE OnDeletePol
 Apply(s) == K' = s.K /\ mgr' = s.m
 Tick == steps < MaxSteps /\ steps' = steps + 1
 
-DoSync == /\ Tick /\ up /\ UNCHANGED <<c, up>>
+DoSync == /\ Tick /\ up /\ UNCHANGED <<c, up>> /\ H([a |-> "Sync"])
           /\ Apply(Sync(St(K, mgr), c)) /\ lastSync' = [pre |-> K, post |-> Sync(St(K, mgr), c).K]
 PolicyEdit ==
     /\ Tick /\ UNCHANGED up
-    /\ \/ \E p \in PolChoices : Key(p) \notin DOMAIN c.pols /\ c' = [c EXCEPT !.pols = Upd(c.pols, Key(p), p)] /\
+    /\ \/ \E p \in PolChoices : Key(p) \notin DOMAIN c.pols /\ c' = [c EXCEPT !.pols = Upd(c.pols, Key(p), p)] /\ H([a |-> "AddPolicy", pol |-> p]) /\
                                  IF up THEN Apply(AddPol(St(K, mgr), c')) /\ lastSync' = [pre |-> K, post |-> AddPol(St(K, mgr), c').K]
                                  ELSE UNCHANGED <<K, mgr, lastSync>>
-       \/ \E k \in DOMAIN c.pols : c' = [c EXCEPT !.pols = Without(c.pols, {k})] /\
+       \/ \E k \in DOMAIN c.pols : c' = [c EXCEPT !.pols = Without(c.pols, {k})] /\ H([a |-> "DeletePolicy", key |-> k]) /\
                                  IF up THEN Apply(DelPol(St(K, mgr), c')) /\ lastSync' = [pre |-> K, post |-> DelPol(St(K, mgr), c').K]
                                  ELSE UNCHANGED <<K, mgr, lastSync>>
 PodEdit ==
     /\ Tick /\ UNCHANGED up /\ lastSync' = Emp
     /\ \E handled \in BOOLEAN :
        \/ \E p \in PodChoices : Key(p) \notin DOMAIN c.pods /\ c' = [c EXCEPT !.pods = Upd(c.pods, Key(p), p)] /\ UNCHANGED <<K, mgr>>
+             /\ H([a |-> "AddPod", pod |-> p, handled |-> handled])
        \/ \E k \in DOMAIN c.pods : c.pods[k].ip = "" /\
              LET np == [c.pods[k] EXCEPT !.ip = IF k = "p1_na" THEN "a1" ELSE "a2"] IN
+             H([a |-> "PodIP", key |-> k, handled |-> up /\ handled]) /\
              c' = [c EXCEPT !.pods[k] = np] /\ IF up /\ handled THEN Apply(OnUpdatePod(St(K, mgr), c', k, np)) ELSE UNCHANGED <<K, mgr>>
-       \/ \E k \in DOMAIN c.pods : c' = [c EXCEPT !.pods = Without(c.pods, {k})] /\
+       \/ \E k \in DOMAIN c.pods : c' = [c EXCEPT !.pods = Without(c.pods, {k})] /\ H([a |-> "DeletePod", key |-> k, handled |-> up /\ handled]) /\
              IF up /\ handled THEN Apply(OnDeletePod(St(K, mgr), c', k, c.pods[k])) ELSE UNCHANGED <<K, mgr>>
-Down == Tick /\ up /\ up' = FALSE /\ UNCHANGED <<c, K, mgr>> /\ lastSync' = Emp
-Restart == /\ Tick /\ ~up /\ up' = TRUE /\ UNCHANGED c
+Down == Tick /\ up /\ up' = FALSE /\ UNCHANGED <<c, K, mgr>> /\ lastSync' = Emp /\ H([a |-> "Down"])
+Restart == /\ Tick /\ ~up /\ up' = TRUE /\ UNCHANGED c /\ H([a |-> "Restart"])
            /\ Apply(Sync(St(K, NoCluster), c)) /\ lastSync' = [pre |-> K, post |-> Sync(St(K, NoCluster), c).K]
 Next == DoSync \/ PolicyEdit \/ PodEdit \/ Down \/ Restart
 Spec == Init /\ [][Next]_vars
@@ -87,5 +93,9 @@ SyncTag == IF lastSync = Emp THEN "none"
                 ELSE IF OnlyStalePodsM(lastSync.post, D) THEN "stalePodChain"
                 ELSE "unexplained"
 ExactOrKnownM == SyncTag # "unexplained"
+\* attack invariants: each counterexample is a shortest history that ends in one of the known shapes (replayed on the real code)
+NotStalePodChainM == SyncTag # "stalePodChain"
+NotStaleBusyM == SyncTag # "stalePolicyChainInUse"
+NotExactAfterTwoPoliciesM == ~(SyncTag = "ok" /\ Cardinality(DOMAIN c.pols) = 2 /\ Chained(c) # {})
 ExactM == SyncTag \in {"none", "ok"}
 =============================================================================
